@@ -30,6 +30,9 @@ def run(chk, tier):
         from_segments(chk, prog, cfg)
         constructors(chk, prog, cfg)
         accessors(chk, prog, cfg)
+        # the path a user reads back is the portable one: its segments are the constructed segments, converted one by one and nothing else
+        from . import c02
+        c02.check_config(chk, prog, cfg, only={"scale_info::ty::path::Path"})
     chk.trusted += ["core::str / core::slice methods (is_ascii, strip_prefix, as_bytes, split_first, Iterator::all/position, split, join)"]
 
 
